@@ -1,4 +1,8 @@
 #[cfg(not(kani))]
+#[global_allocator]
+static CHECKED: nd::checkalloc::CheckAlloc = nd::checkalloc::CheckAlloc;
+
+#[cfg(not(kani))]
 fn main() {
     nd::replay_main(vk_dsd::TABLES)
 }
